@@ -40,6 +40,23 @@ theorem bestCell_some_of_head (c0 : Cell) (l : List (Option Cell)) (b : Option C
   apply bestCell_isSome
   exact Or.inr ⟨0, rfl⟩
 
+theorem traceGoA_eq (cells : List MatrixCell) (width : Nat) (offs : List Nat) (start : Nat) : ∀ (fuel : Nat) (t : TState),
+    traceGoA cells.toArray width offs start fuel t = traceGo cells width offs start fuel t := by
+  intro fuel
+  induction fuel with
+  | zero => intro t; rfl
+  | succ fuel ih =>
+    intro t
+    have hg : ∀ i, cells.toArray.getD i default = cells.getD i default := by
+      intro i
+      rw [Array.getD_eq_getD_getElem?, List.getD_eq_getElem?_getD, List.getElem?_toArray]
+    simp only [traceGoA, traceGo, hg, List.size_toArray]
+    split
+    · split
+      · rfl
+      · exact ih _
+    · exact ih _
+
 /-- the end of `fuzzy_match_optimal` on a state that satisfies the loop invariant at the last row -/
 theorem finish_spec (c : Ctx) (g : Good c) (start clen : Nat) (s : PState) (inv : Inv c clen (c.n.length - 1) s)
     (hclen : c.seg (c.n.length - 1) ≤ clen) (hidx : ∀ j x, c.cols[j]? = some x → x.idx = start + j) :
@@ -120,6 +137,7 @@ theorem finish_spec (c : Ctx) (g : Good c) (start clen : Nat) (s : PState) (inv 
       (by rw [show c.so (c.n.length - 2) - c.ro (c.n.length - 2) + (e + (c.so (c.n.length - 1) - c.so (c.n.length - 2)) - 1) =
             c.so (c.n.length - 1) - 1 - c.ro (c.n.length - 2) + e by omega]; exact hst)
       (by omega) hsrc1 (by omega)
+    rw [traceGoA_eq]
     show traceGo (s.cells.take s.off) c.width c.offs start _ _ = _
     rw [tr, hsrc2, hci]
     simp only [List.append_cancel_left_eq, List.cons.injEq, and_true]
